@@ -32,10 +32,11 @@ fn l_deflate_bound() {
     assert!(b >= level0_zlib_size(n));
     assert!(b >= n + 128);
     assert!(mz_compressBound(n as libc::c_ulong) as u64 == b);
-    // the formula's two arms
+    // not below either arm of the bound the library documents as sufficient (miniz: 10% expansion
+    // margin for Huffman-coded blocks, 5 bytes per 31 KiB stored block); a larger bound is fine
     let a1 = 128 + (n * 110) / 100;
     let a2 = 128 + n + (n / 31744 + 1) * 5;
-    assert!(b == if a1 > a2 { a1 } else { a2 });
+    assert!(b >= a1 && b >= a2);
     kani::cover!(n == 0);
     kani::cover!(n == 31745 * 3);
 }
